@@ -46,12 +46,62 @@ func (r recorder) Send(m *pdpb.RegionHeartbeatResponse) error {
 	return nil
 }
 
+// Delivered is a command as a store's heartbeat stream received it.
+type Delivered struct {
+	Store uint64
+	Msg   *pdpb.RegionHeartbeatResponse
+}
+
+// Hub runs real heartbeat streams and records what every store receives.
+type Hub struct {
+	HB   *hbstream.HeartbeatStreams
+	mu   sync.Mutex
+	recv []recvMsg
+}
+
+// NewHub binds a recording stream for every store id.
+func NewHub(ctx context.Context, cluster *mockcluster.Cluster, stores []uint64) *Hub {
+	h := &Hub{}
+	h.HB = hbstream.NewTestHeartbeatStreams(ctx, cluster.ID, cluster, true)
+	for _, id := range stores {
+		h.HB.BindStream(id, recorder{&h.mu, id, &h.recv})
+	}
+	return h
+}
+
+// Settle waits until everything handed to the streams was delivered and returns it.
+func (h *Hub) Settle() []Delivered {
+	for i := 0; h.HB.MsgLength() > 0 && i < 20000; i++ {
+		time.Sleep(50 * time.Microsecond)
+	}
+	for i := 0; i < 3; i++ {
+		h.HB.BindStream(1<<40, recorder{&h.mu, 1 << 40, &h.recv})
+	}
+	h.mu.Lock()
+	defer h.mu.Unlock()
+	var out []Delivered
+	for _, m := range h.recv {
+		if m.msg.GetRegionId() != 0 {
+			out = append(out, Delivered{m.store, m.msg})
+		}
+	}
+	h.recv = nil
+	return out
+}
+
+// CmdRec is the trace record of a delivered command.
+func CmdRec(m *pdpb.RegionHeartbeatResponse) trace.Ev { return cmdRec(m) }
+
+// RegionRec is the trace record of a region (conf, ver, leader, peers).
+func RegionRec(r *core.RegionInfo) trace.Ev { return regionRec(r) }
+
 type ctlOp struct {
 	op       *operator.Operator
 	steps    []trace.Ev
 	deltas   []int
 	timedOut bool
 	leader0  int // leader store in the view the operator was built from
+	pair     int // merge operators come in pairs: index of the other one
 }
 
 type inflight struct {
@@ -136,7 +186,7 @@ func statusName(op *operator.Operator) string { return operator.OpStatusToString
 
 func nominalDelta(s operator.OpStep) int {
 	switch x := s.(type) {
-	case operator.TransferLeader:
+	case operator.TransferLeader, operator.MergeRegion, operator.SplitRegion:
 		return 0
 	case operator.ChangePeerV2Enter:
 		return len(x.PromoteLearners) + len(x.DemoteVoters)
@@ -148,7 +198,7 @@ func nominalDelta(s operator.OpStep) int {
 
 func regionRec(r *core.RegionInfo) trace.Ev {
 	return trace.Ev{"conf": int(r.GetRegionEpoch().GetConfVer()), "ver": int(r.GetRegionEpoch().GetVersion()),
-		"leader": int(r.GetLeader().GetStoreId()), "peers": PeersRec(r.GetPeers())}
+		"leader": int(r.GetLeader().GetStoreId()), "peers": PeersRec(r.GetPeers()), "keys": []string{string(r.GetStartKey()), string(r.GetEndKey())}}
 }
 
 func cmdRec(m *pdpb.RegionHeartbeatResponse) trace.Ev {
@@ -164,6 +214,12 @@ func cmdRec(m *pdpb.RegionHeartbeatResponse) trace.Ev {
 			ch = append(ch, []interface{}{c.GetChangeType().String(), int(c.GetPeer().GetStoreId()), int(c.GetPeer().GetId())})
 		}
 		return trace.Ev{"k": "V2", "store": 0, "peer": 0, "changes": ch}
+	}
+	if m.GetMerge() != nil {
+		return trace.Ev{"k": "Merge", "store": 0, "peer": int(m.GetMerge().GetTarget().GetId()), "changes": [][]interface{}{}}
+	}
+	if m.GetSplitRegion() != nil {
+		return trace.Ev{"k": "Split", "store": 0, "peer": 0, "changes": [][]interface{}{}}
 	}
 	return trace.Ev{"k": "Other", "store": 0, "peer": 0, "changes": [][]interface{}{}}
 }
@@ -222,7 +278,7 @@ func (e *ctlEnv) snapshot(action string, region int, opn int, extra trace.Ev) tr
 	ops := []trace.Ev{}
 	for _, o := range e.ops {
 		ops = append(ops, trace.Ev{"region": int(o.op.RegionID()), "status": statusName(o.op), "ec": int(o.op.RegionEpoch().GetConfVer()),
-			"ev": int(o.op.RegionEpoch().GetVersion()), "prio": int(o.op.GetPriorityLevel()), "steps": o.steps, "deltas": o.deltas, "late": o.timedOut, "started": o.op.HasStarted(), "leader0": o.leader0})
+			"ev": int(o.op.RegionEpoch().GetVersion()), "prio": int(o.op.GetPriorityLevel()), "steps": o.steps, "deltas": o.deltas, "late": o.timedOut, "started": o.op.HasStarted(), "leader0": o.leader0, "pair": o.pair})
 	}
 	ev["ops"] = ops
 	for k, v := range extra {
@@ -237,7 +293,9 @@ func (e *ctlEnv) create(r uint64) *operator.Operator {
 	rng := e.rng
 	var op *operator.Operator
 	var err error
-	if rng.Intn(5) == 0 {
+	if rng.Intn(12) == 0 {
+		op, err = operator.CreateSplitRegionOperator("verif-split", view, 0, pdpb.CheckPolicy_SCAN, nil)
+	} else if rng.Intn(5) == 0 {
 		var voters []uint64
 		for _, p := range view.GetVoters() {
 			if p.GetStoreId() != view.GetLeader().GetStoreId() {
@@ -303,6 +361,11 @@ func (e *ctlEnv) create(r uint64) *operator.Operator {
 
 // applyCmd is the faithful store: the region after its leader handled the command, or the same region when the
 // command is refused (epoch moved on, not the leader any more, or the change is impossible).
+// ApplyCmd: see applyCmd.
+func ApplyCmd(r *core.RegionInfo, to uint64, m *pdpb.RegionHeartbeatResponse) *core.RegionInfo {
+	return applyCmd(r, to, m)
+}
+
 func applyCmd(r *core.RegionInfo, to uint64, m *pdpb.RegionHeartbeatResponse) *core.RegionInfo {
 	ep := r.GetRegionEpoch()
 	if m.GetRegionEpoch().GetConfVer() != ep.GetConfVer() || m.GetRegionEpoch().GetVersion() != ep.GetVersion() || r.GetLeader().GetStoreId() != to {
@@ -373,6 +436,21 @@ func applyCmd(r *core.RegionInfo, to uint64, m *pdpb.RegionHeartbeatResponse) *c
 		return ps, false
 	}
 	switch {
+	case m.GetSplitRegion() != nil:
+		if inJoint {
+			return r
+		}
+		// the region keeps the left part; a sibling (not tracked here) takes the rest
+		end := string(r.GetStartKey()) + "5"
+		if len(r.GetEndKey()) > 0 && end >= string(r.GetEndKey()) {
+			end = string(r.GetStartKey()) + "0" + string(r.GetEndKey())
+			if end >= string(r.GetEndKey()) {
+				return r
+			}
+		}
+		return r.Clone(core.WithEndKey([]byte(end)), core.WithIncVersion())
+	case m.GetMerge() != nil:
+		return r // merging needs the target's cooperation; the stores of this simulator never complete it
 	case m.GetTransferLeader() != nil:
 		p := r.GetStorePeer(m.GetTransferLeader().GetPeer().GetStoreId())
 		if p != nil && p.Id == m.GetTransferLeader().GetPeer().GetId() && (p.Role == metapb.PeerRole_Voter || p.Role == metapb.PeerRole_IncomingVoter) {
@@ -517,6 +595,25 @@ func controller(args map[string]string) error {
 				if len(e.ops) >= 9 {
 					continue
 				}
+				if rng.Intn(8) == 0 && len(e.ops) < 8 { // a pair of merge operators: region r into the other one
+					src, dst := e.cluster.GetRegion(r), e.cluster.GetRegion(3-r)
+					ops, err := operator.CreateMergeRegionOperator("verif-merge", e.cluster, src, dst, operator.OpMerge)
+					if err != nil || len(ops) != 2 {
+						continue
+					}
+					base := len(e.ops)
+					for j, op := range ops {
+						co := &ctlOp{op: op, leader0: int(e.cluster.GetRegion(op.RegionID()).GetLeader().GetStoreId()), pair: base + 2 - j}
+						for x := 0; x < op.Len(); x++ {
+							co.steps = append(co.steps, StepRec(op.Step(x)))
+							co.deltas = append(co.deltas, nominalDelta(op.Step(x)))
+						}
+						e.ops = append(e.ops, co)
+					}
+					stats["merge-pairs"]++
+					w.Emit(e.snapshot("CreateMerge", int(r), base+1, nil))
+					continue
+				}
 				op := e.create(r)
 				if op == nil {
 					continue
@@ -536,7 +633,16 @@ func controller(args map[string]string) error {
 				if x == 0 {
 					continue
 				}
-				ok := e.oc.AddOperator(e.ops[x-1].op)
+				var ok bool
+				if p := e.ops[x-1].pair; p != 0 { // merge operators are handed over together, source first
+					a, b := x, p
+					if a > b {
+						a, b = b, a
+					}
+					ok = e.oc.AddOperator(e.ops[a-1].op, e.ops[b-1].op)
+				} else {
+					ok = e.oc.AddOperator(e.ops[x-1].op)
+				}
 				stats["add"]++
 				if ok {
 					stats["admitted"]++
@@ -547,7 +653,16 @@ func controller(args map[string]string) error {
 				if x == 0 {
 					continue
 				}
-				cnt := e.oc.AddWaitingOperator(e.ops[x-1].op)
+				var cnt int
+				if p := e.ops[x-1].pair; p != 0 {
+					a, b := x, p
+					if a > b {
+						a, b = b, a
+					}
+					cnt = e.oc.AddWaitingOperator(e.ops[a-1].op, e.ops[b-1].op)
+				} else {
+					cnt = e.oc.AddWaitingOperator(e.ops[x-1].op)
+				}
 				w.Emit(e.snapshot("AddWaiting", int(e.ops[x-1].op.RegionID()), x, trace.Ev{"ok": cnt > 0}))
 			case k < 35:
 				e.oc.PromoteWaitingOperator()
